@@ -11,6 +11,7 @@ import (
 	"github.com/zclconf/go-cty/cty"
 
 	"hx/lib"
+	"hx/props/evalgen"
 )
 
 // directedBlockSpecs: a dynamic block over a collection marked at the top, decoded through each block-collecting
@@ -93,6 +94,84 @@ func directedBlockSpecs(cx *lib.Ctx) {
 						Input: input, Impl: "run A: " + lib.DumpValue(vals[0]) + "\nrun B: " + lib.DumpValue(vals[1])})
 				}
 			}
+		}
+	}
+}
+
+// directedExprs: two-run checks on expressions whose result depends on a marked value only through *whether an
+// iteration contributes anything* — an element that is empty in one run, a collection with no elements, a
+// condition that filters everything — where a mark is easily forgotten because there is "nothing" to mark.
+func directedExprs(cx *lib.Ctx) {
+	res := cx.Res
+	m := func(v cty.Value) cty.Value { return v.Mark(Mark) }
+	s := cty.StringVal
+	type pair struct {
+		src  string
+		a, b map[string]cty.Value
+	}
+	lst := func(vs ...cty.Value) cty.Value { return cty.ListVal(vs) }
+	tup := func(vs ...cty.Value) cty.Value { return cty.TupleVal(vs) }
+	pairs := []pair{
+		{`"%{ for x in secret }${x}%{ endfor }"`, map[string]cty.Value{"secret": tup(s("a"), m(s("")))}, map[string]cty.Value{"secret": tup(s("a"), m(s("b")))}},
+		{`"[%{ for x in ["a"] }${secret}%{ endfor }]"`, map[string]cty.Value{"secret": m(s(""))}, map[string]cty.Value{"secret": m(s("s"))}},
+		{`"%{ for x in secret }${x}%{ endfor }"`, map[string]cty.Value{"secret": m(lst(s("")))}, map[string]cty.Value{"secret": m(lst(s("b")))}},
+		{`"%{ for x in secret }-%{ endfor }"`, map[string]cty.Value{"secret": m(cty.ListValEmpty(cty.String))}, map[string]cty.Value{"secret": m(lst(s("b")))}},
+		{`"%{ if secret == "" }%{ else }x%{ endif }"`, map[string]cty.Value{"secret": m(s(""))}, map[string]cty.Value{"secret": m(s("b"))}},
+		{`"${secret}"`, map[string]cty.Value{"secret": m(s(""))}, map[string]cty.Value{"secret": m(s("b"))}},
+		{`"a${secret}b"`, map[string]cty.Value{"secret": m(s(""))}, map[string]cty.Value{"secret": m(s("b"))}},
+		{`secret[*]`, map[string]cty.Value{"secret": m(cty.ListValEmpty(cty.String))}, map[string]cty.Value{"secret": m(lst(s("b")))}},
+		{`secret.*.name`, map[string]cty.Value{"secret": m(cty.ListValEmpty(cty.Object(map[string]cty.Type{"name": cty.String})))}, map[string]cty.Value{"secret": m(lst(cty.ObjectVal(map[string]cty.Value{"name": s("a")})))}},
+		{`[for x in secret : x]`, map[string]cty.Value{"secret": m(cty.ListValEmpty(cty.String))}, map[string]cty.Value{"secret": m(lst(s("b")))}},
+		{`[for x in ["a", "b"] : x if x != secret]`, map[string]cty.Value{"secret": m(s("a"))}, map[string]cty.Value{"secret": m(s("zz"))}},
+		{`[for x in ["a"] : x if secret]`, map[string]cty.Value{"secret": m(cty.False)}, map[string]cty.Value{"secret": m(cty.True)}},
+		{`{for x in ["a"] : x => x if secret}`, map[string]cty.Value{"secret": m(cty.False)}, map[string]cty.Value{"secret": m(cty.True)}},
+		{`secret.a`, map[string]cty.Value{"secret": m(cty.MapVal(map[string]cty.Value{"a": s("x")}))}, map[string]cty.Value{"secret": m(cty.MapVal(map[string]cty.Value{"a": s("y")}))}},
+		{`secret["a"]`, map[string]cty.Value{"secret": m(cty.MapVal(map[string]cty.Value{"a": s("x")}))}, map[string]cty.Value{"secret": m(cty.MapVal(map[string]cty.Value{"a": s("y")}))}},
+		{`secret.a`, map[string]cty.Value{"secret": m(cty.ObjectVal(map[string]cty.Value{"a": s("x")}))}, map[string]cty.Value{"secret": m(cty.ObjectVal(map[string]cty.Value{"a": s("y")}))}},
+		{`secret[0]`, map[string]cty.Value{"secret": m(lst(s("x")))}, map[string]cty.Value{"secret": m(lst(s("y")))}},
+		{`length(secret) == 0 ? "e" : "n"`, map[string]cty.Value{"secret": m(cty.ListValEmpty(cty.String))}, map[string]cty.Value{"secret": m(lst(s("b")))}},
+		{`!secret`, map[string]cty.Value{"secret": m(cty.False)}, map[string]cty.Value{"secret": m(cty.True)}},
+		{`secret && true`, map[string]cty.Value{"secret": m(cty.False)}, map[string]cty.Value{"secret": m(cty.True)}},
+		{`false || secret`, map[string]cty.Value{"secret": m(cty.False)}, map[string]cty.Value{"secret": m(cty.True)}},
+	}
+	for _, p := range pairs {
+		e, diags := hclsyntax.ParseExpression([]byte(p.src), "", hcl.InitialPos)
+		if diags.HasErrors() {
+			res.Fail(lib.Failure{Kind: "oracle", Key: "harness:directed-unparseable", Desc: diags.Error(), Input: p.src})
+			continue
+		}
+		var vals [2]cty.Value
+		ok := true
+		for i, sc := range []map[string]cty.Value{p.a, p.b} {
+			ctx := &hcl.EvalContext{Variables: sc, Functions: evalgen.Funcs()}
+			good := cx.Guard("directed-expr", p.src, func() {
+				v, d := e.Value(ctx)
+				if d.HasErrors() {
+					ok = false
+				}
+				vals[i] = v
+			})
+			if !good {
+				ok = false
+			}
+		}
+		res.Count("directed-expr:cases")
+		res.Case("directed-expr|"+p.src+"|"+lib.DumpValue(p.a["secret"]), ok)
+		if !ok {
+			res.Count("directed-expr:error")
+			continue
+		}
+		ua, _ := vals[0].UnmarkDeep()
+		ub, _ := vals[1].UnmarkDeep()
+		if lib.DumpValue(ua) == lib.DumpValue(ub) {
+			res.Count("directed-expr:same-result")
+			continue
+		}
+		if !hasMark(vals[0]) || !hasMark(vals[1]) {
+			res.Fail(lib.Failure{Kind: "oracle", Key: "mark-lost:directed:" + p.src,
+				Desc:  "changing the content of the marked variable changes the error-free result, but a result does not carry the mark",
+				Input: fmt.Sprintf("%s\n-- secret = %s | %s", p.src, lib.DumpValue(p.a["secret"]), lib.DumpValue(p.b["secret"])),
+				Impl:  "run A: " + lib.DumpValue(vals[0]) + "\nrun B: " + lib.DumpValue(vals[1])})
 		}
 	}
 }
